@@ -1,6 +1,7 @@
 import SpecKitV.Props.AttrsA
 import SpecKitV.Lemmas.Detrend
 import SpecKitV.Props.C01
+import SpecKitV.Lemmas.Delay
 
 #print axioms tf_static_gain
 #print axioms tf_zero_input
@@ -15,3 +16,11 @@ import SpecKitV.Props.C01
 #print axioms numba_cuda_agree_poly_csd
 #print axioms numba_cuda_agree_poly_auto
 #print axioms ref_cross_is_X_conjY
+#print axioms detr_gain
+#print axioms segDFT_gain
+#print axioms delay_decomposition
+#print axioms delay_bound
+#print axioms tf_of_pure_delay
+#print axioms tf_of_pure_delay_arg
+#print axioms tf_delay_perturbed
+#print axioms tf_delay_perturbed_abs
